@@ -1,4 +1,5 @@
 """Runs the real FunctorPool / FactoryFunctorPool under the harness-owned scheduler and analyses the run (C01-C04)."""
+import copy
 import math
 import sys
 
@@ -16,8 +17,19 @@ class SharedLog(prims.Shared, list):
     pass
 
 
+# 'special' payloads (call["vals"]): items that are None, falsy or empty containers; their result is the item itself, so that
+# None and falsy *results* occur as well. Positions are not recoverable from such items: only the value oracle is applied.
+SPECIAL = [None, 0, "", [], False, (), 0.0, "a", [None], {}, None]
+
+
 def f(x):
-    return [x, 2 * x + 1]
+    if type(x) is int:
+        return [x, 2 * x + 1]
+    return x
+
+
+def special_items(call):
+    return [copy.deepcopy(SPECIAL[v % len(SPECIAL)]) for v in call["vals"]]
 
 
 class SimWorker(opp.BaseFunctorWorker):
@@ -47,7 +59,7 @@ class SimWorker(opp.BaseFunctorWorker):
     def __call__(self, x):
         self.log.append(("item", self.uid, x))
         slow = self.cfg.get("slow")
-        if slow and x % 1000 in slow:
+        if slow and type(x) is int and x % 1000 in slow:
             S().sleep(slow[x % 1000], "slow-item")
         return f(x)
 
@@ -120,9 +132,9 @@ def parse_wq(v):
 
 def make_input(call, ci):
     n = call["n"]
-    items = [ci * 1000 + i for i in range(n)]
+    items = special_items(call) if "vals" in call else [ci * 1000 + i for i in range(n)]
     kind = call.get("input", "list")
-    if kind == "list":
+    if kind == "list" or kind == "range" and "vals" in call:
         return items
     if kind == "range":
         return range(ci * 1000, ci * 1000 + n)
@@ -193,6 +205,7 @@ def run_pool_case(case, max_steps=None):
     rq = case.get("rq")
     cdelay = case.get("cdelay") or [0]
     ready_at = case.get("ready_at")
+    ready_mid = case.get("ready_mid")    # [call index, k]: until_all_ready() is called after the k-th result of that call
 
     def consumer():
         ctx = RecContext()
@@ -210,6 +223,23 @@ def run_pool_case(case, max_steps=None):
                 # replace thread share) becomes a preemption point, also between two reads inside one source line
                 pool.__class__ = traced_class(type(pool))
             with pool:
+                checker = None
+                rt = case.get("ready_thread")
+                if rt:
+                    # another thread of the consumer process asks until_all_ready() at generated moments while calls are running
+                    # and workers are being replaced; judged for the workers registered at the moment of each call
+                    def check_ready():
+                        s = S()
+                        s.sleep(rt.get("start", 0), "ready-thread-delay")
+                        for _ in range(rt.get("reps", 1)):
+                            registered = list(pool.procs)
+                            pool.until_all_ready()
+                            done = {e[1] for e in res.log if e[0] == "begin-done"}
+                            res.ready_checks.append((-1, [p.uid for p in registered if p.uid not in done]))
+                            s.sleep(rt.get("gap", 1), "ready-thread-gap")
+                    import threading
+                    checker = threading.Thread(target=check_ready)
+                    checker.start()
                 for ci, call in enumerate(calls):
                     if ready_at == ci:
                         pool.until_all_ready()
@@ -224,6 +254,13 @@ def run_pool_case(case, max_steps=None):
                         out.append(x)
                         d = cdelay[k % len(cdelay)]
                         k += 1
+                        if ready_mid and ready_mid[0] == ci and ready_mid[1] == k:
+                            # workers are being replaced while this runs: the statement is checked for the workers that are
+                            # registered in the pool at the moment of the call (a later replacement cannot be waited for)
+                            registered = list(pool.procs)
+                            pool.until_all_ready()
+                            done = {e[1] for e in res.log if e[0] == "begin-done"}
+                            res.ready_checks.append((ci, [p.uid for p in registered if p.uid not in done]))
                         if d:
                             S().sleep(d, "consumer-delay")
                         if len(out) > 3 * call["n"] + 10:
@@ -231,6 +268,8 @@ def run_pool_case(case, max_steps=None):
                             break
                     res.calls_done += 1
                     res.leftovers.append([(q.name, it) for q in ctx.registry for it in payload_items(q)])
+                if checker is not None:
+                    checker.join()
             res.left_context = True
             # the moment the pool context has been left: which worker processes (replaced ones included) are still running?
             res.alive_at_exit = [t.name for t in sched.tasks if t.kind == "process" and not t.done]
@@ -255,6 +294,8 @@ def run_pool_case(case, max_steps=None):
 # ------------------------------------------------------------------------------------------ analysis
 
 def expected_for(call, ci):
+    if "vals" in call:
+        return [f(x) for x in special_items(call)]
     return [f(ci * 1000 + i) for i in range(call["n"])]
 
 
@@ -297,7 +338,12 @@ def value_verdicts(case, res):
         got = res.outputs[ci]
         exp = expected_for(call, ci)
         mode = "imap" if call["mode"] == "o" else "imap_unordered"
-        if call["mode"] == "o":
+        if "vals" in call:
+            same = got == exp if call["mode"] == "o" else sorted(map(repr, got)) == sorted(map(repr, exp))
+            if not same:
+                out.append(("%s/%s/wrong-results-for-none-or-falsy-items" % (name, mode), "call %d (n=%d chunk=%d) yielded %r, expected %r%s"
+                            % (ci, call["n"], call.get("chunk", 1), short(got), short(exp), "" if call["mode"] == "o" else " (as a multiset)")))
+        elif call["mode"] == "o":
             if got != exp:
                 kind = classify_diff(got, exp, ci)
                 out.append(("%s/%s/%s" % (name, mode, kind), "call %d (n=%d chunk=%d) yielded %r, expected %r" % (ci, call["n"], call.get("chunk", 1), short(got), short(exp))))
@@ -317,12 +363,12 @@ def value_verdicts(case, res):
     # a call that can never complete although every input was processed and nothing is pending any more: its results were lost
     # or mis-indexed inside the pool (a pure liveness problem - everything yielded, consumer still waiting - is C02's verdict)
     if isinstance(res.outcome, tuple) and res.outcome[0] == "deadlock" and not res.left_context and res.calls_done < len(case["calls"]) \
-            and len(res.outputs) > res.calls_done and res.ctx is not None:
+            and len(res.outputs) > res.calls_done and res.ctx is not None and "vals" not in case["calls"][res.calls_done]:
         ci = res.calls_done
         call = case["calls"][ci]
         exp = expected_for(call, ci)
         got = res.outputs[ci]
-        processed = {e[2] for e in res.log if e[0] == "item" and e[2] // 1000 == ci}
+        processed = {e[2] for e in res.log if e[0] == "item" and type(e[2]) is int and e[2] // 1000 == ci}
         pending = [it for q in res.ctx.registry for it in payload_items(q)]
         if len(processed) == call["n"] and not pending and sorted(map(tuple, got)) != sorted(map(tuple, exp)):
             mode = "imap" if call["mode"] == "o" else "imap_unordered"
@@ -376,7 +422,8 @@ def lifecycle_verdicts(case, res):
             break
     for ci, missing in res.ready_checks:
         if missing:
-            out.append(("%s/until_all_ready-returned-before-begin-completed" % name, "before call %d workers %r had not completed begin()" % (ci, missing)))
+            out.append(("%s/until_all_ready-returned-before-begin-completed" % name, "%s workers %r (registered in the pool when until_all_ready() was called) had not completed begin() when it returned"
+                        % ("asked from another thread during the calls:" if ci < 0 else "around call %d:" % ci, missing)))
     quota = case.get("quota")
     if quota is not None and res.ctx is not None:
         counts = {}
@@ -407,7 +454,7 @@ def labels_for(case, res):
             if not isinstance(q, RecQueue):
                 continue
             for who, item in q.history:
-                if is_result_chunk(item) and item[1]:
+                if is_result_chunk(item) and item[1] and type(item[1][0]) is list and len(item[1][0]) == 2 and type(item[1][0][0]) is int:
                     per_call.setdefault(item[1][0][0] // 1000, []).append(item[0])
         for ci, idxs in per_call.items():
             if idxs != sorted(idxs):
